@@ -432,7 +432,8 @@ func writeEvidence(prop string, o checkOpts, res *checkResult) {
 		}
 	}
 	cov := map[string]interface{}{
-		"obligations":              res.nObl,
+		"obligations":              res.nObl - res.known,
+		"obligations_recorded_as_known_findings": res.known,
 		"discharged":               res.nDischarged,
 		"obligation_instances":     res.nInstances,
 		"instances_by_simplifier":  res.nTrivial,
